@@ -1077,6 +1077,118 @@ class NP:
             raise Unsupported("np.mean of an empty array (nan)")
         return _sum(a.d) / Q(len(a.d))
 
+    # ---- further element-wise / structural functions (each one differentially tested against numpy in the self-test)
+    def asanyarray(self, x, dtype=None):
+        return asarray(x, dtype)
+
+    ascontiguousarray = asanyarray
+
+    def copy(self, x):
+        x = asarray(x)
+        return x.copy() if isinstance(x, SymArray) else x
+
+    def add(self, a, b): return asarray(a) + b if not _is_scalar(a) else a + b
+    def subtract(self, a, b): return asarray(a) - b if not _is_scalar(a) else a - b
+    def multiply(self, a, b): return asarray(a) * b if not _is_scalar(a) else a * b
+    def divide(self, a, b): return asarray(a) / b if not _is_scalar(a) else (a / b if not isinstance(b, SymArray) else b.__rtruediv__(a))
+    true_divide = divide
+    def negative(self, a): return -asarray(a) if not _is_scalar(a) else -a
+    def reciprocal(self, a): return 1 / asarray(a) if not _is_scalar(a) else 1 / a
+
+    def sign(self, x):
+        def one(v):
+            c = concrete(v)
+            if c is not None:
+                return Q((c > 0) - (c < 0))
+            return s_ite(lift(v) > 0, Q(1), s_ite(lift(v) < 0, Q(-1), Q(0)))
+        return asarray(x)._map(one) if not _is_scalar(x) else one(x)
+
+    def expm1(self, x): return self.exp(x) - 1
+    def log1p(self, x): return self.log(1 + asarray(x) if not _is_scalar(x) else 1 + x)
+
+    def nan_to_num(self, x, copy=True, nan=0.0, posinf=None, neginf=None):
+        return x        # symbolic values are finite reals; NaN / inf are carried separately and never reach here silently
+
+    def ravel(self, a):
+        return asarray(a).flatten()
+
+    def reshape(self, a, shape):
+        a = asarray(a)
+        if shape in (-1, (-1,)):
+            return a.flatten()
+        raise Unsupported(f"np.reshape to {shape}")
+
+    def prod(self, a, axis=None):
+        a = asarray(a)
+        if axis is not None or a.ndim != 1:
+            raise Unsupported("np.prod with an axis / of a 2-D array")
+        r = Q(1)
+        for v in a.d:
+            r = r * v
+        return r
+
+    def cumprod(self, a):
+        a = asarray(a)
+        out, r = [], Q(1)
+        for v in a.d:
+            r = r * v
+            out.append(r)
+        return SymArray(out, a.dtype_tag)
+
+    def trapezoid(self, y, x=None, dx=1.0, axis=-1):
+        y = asarray(y)
+        if y.ndim != 1:
+            raise Unsupported("np.trapezoid of a 2-D array")
+        if x is not None:
+            x = asarray(x)
+            if len(x.d) != len(y.d):
+                raise ValueError("operands could not be broadcast together")
+        r = Q(0)
+        for k in range(len(y.d) - 1):
+            h = (x.d[k + 1] - x.d[k]) if x is not None else lift(dx)
+            r = r + h * (y.d[k] + y.d[k + 1]) / 2
+        return r
+
+    trapz = trapezoid
+
+    def average(self, a, weights=None):
+        a = asarray(a)
+        if weights is None:
+            return self.mean(a)
+        w = asarray(weights)
+        return _sum([x * y for x, y in zip(a.d, w.d)]) / _sum(w.d)
+
+    def repeat(self, a, n):
+        a = asarray(a) if not _is_scalar(a) else SymArray([a], _dtype_of_scalar(a))
+        n = int(n)
+        return SymArray([v for v in a.d for _ in range(n)], a.dtype_tag)
+
+    def tile(self, a, n):
+        a = asarray(a) if not _is_scalar(a) else SymArray([a], _dtype_of_scalar(a))
+        return SymArray(list(a.d) * int(n), a.dtype_tag)
+
+    def take(self, a, idx):
+        return asarray(a)[idx]
+
+    def flipud(self, a):
+        return self.flip(a)
+
+    def errstate(self, **kw):
+        import contextlib
+        return contextlib.nullcontext()
+
+    def seterr(self, **kw):
+        return {}
+
+    class _FInfo:
+        eps = Q(Fraction(2) ** -52)
+        tiny = Q(Fraction(2) ** -1022)
+        max = Q(Fraction(2) ** 1023 * (2 - Fraction(2) ** -52))
+        resolution = Q(Fraction(1, 10 ** 15))
+
+    def finfo(self, dt=float):
+        return NP._FInfo
+
     def __getattr__(self, name):
         # a numpy function the model does not have: an honest 'cannot analyse' (exit 3), never an AttributeError that
         # would look like an error of the code under analysis
